@@ -144,4 +144,13 @@ def c06(c):
     return c.finish()
 
 
-CHECKS = {"C06": c06, "C09": c09, "C10": c10, "C11": c11, "C01": c01, "C02": c02, "C03": c03, "C04": c04, "C05": c05, "C07": c07, "C08": c08}
+def c17(c):
+    build_both()
+    for b in ("ark", "min"):
+        c.trace(b, "konst", 0, module="ConstTrace.tla", cfg="cfg/ConstTrace.cfg")
+    c.exhaustive_parts.append("the finite list of public constants of both builds (one konst event each)")
+    return c.finish(rule="distinct (build, constant name, Rust source of the constant) combinations checked against the "
+                         "constant's defining equation", extra={"exhaustive": True})
+
+
+CHECKS = {"C17": c17, "C06": c06, "C09": c09, "C10": c10, "C11": c11, "C01": c01, "C02": c02, "C03": c03, "C04": c04, "C05": c05, "C07": c07, "C08": c08}
